@@ -2,16 +2,18 @@
 import re
 from vlib import *
 
-LINE = re.compile(r"^(?:got=(\S+) )?rv=(-?\d+)(?: pipe=p(\d+))?(?: NOT-QUIESCENT)? done=(\S+) pipes=(\S+) poll=(\S+)$")
+LINE = re.compile(r"^(?:got=(\S+) )?rv=(-?\d+)(?: pipe=p(\d+))?(?: inj=(\S+))?(?: NOT-QUIESCENT)? done=(\S+) pipes=(\S+) poll=(\S+)$")
 
 
 def parse_line(l):
-    """-> dict(rv, got, newpipe, done=[(aio, rv, extra)], pipes={i: dict(st, nt, tx, armed, inbox)}, poll={s: (r,w)}) or None"""
+    """-> dict(rv, got, newpipe, inj, done=[(aio, rv, extra)], pipes={i: dict(st, nt, tx, armed, inbox)}, poll={s: (r,w)}) or None
+    inj: canonical spelling of an injected message that was written with a relative id token ([R<n>+k] / [R<n>-k]): the
+    token is spelt [R<m>] if its value is an id already seen on the wire, else it keeps the relative spelling."""
     m = LINE.match(l or "")
     if not m:
         return None
-    got, rv, newpipe, done, pipes, poll = m.groups()
-    d = {"rv": int(rv), "got": got, "newpipe": int(newpipe) if newpipe is not None else None, "done": [], "pipes": {}, "poll": {}}
+    got, rv, newpipe, inj, done, pipes, poll = m.groups()
+    d = {"rv": int(rv), "got": got, "newpipe": int(newpipe) if newpipe is not None else None, "inj": inj, "done": [], "pipes": {}, "poll": {}}
     if done != "-":
         for x in done.split(","):
             f = x.split(":", 2)
@@ -51,20 +53,36 @@ def proto_run(rep, prop, tier, bdir, cases, oracle, model_driver="proto", label=
         return crash is not None or oracle(c, [parse_line(x) for x in o[0]], o[0]) is not None
 
     B = 100
-    for b0 in range(0, len(cases), B):
-        batch = cases[b0:b0 + B]
-        iout, crash = run_cases(impl, batch, timeout=600)
-        mout, mcrash = run_cases(model, batch, timeout=600)
+    # (offset of the batch in `cases`, its cases).  A crash ends the process that runs a batch: the cases before the
+    # crashing one have their observations and are judged as usual, the cases after it are run again as a new batch
+    # (so that one crashing script does not hide what the oracle says about its neighbours).
+    work = [(b0, cases[b0:b0 + B]) for b0 in range(0, len(cases), B)]
+    ncrash = 0
+    while work:
+        b0, batch = work.pop(0)
+        iout, crash = run_cases(impl, batch, timeout=600) if b0 != "crash" else (None, None)
         if crash:
             ci, rc, errtxt = crash
-            small = batch[ci]
+            ncrash += 1
+            if ncrash <= 8 and ci + 1 < len(batch):
+                work.insert(0, (b0 + ci + 1, batch[ci + 1:]))
+            crashed = batch[ci]
+            batch = batch[:ci]
+            # reported after the cases that ran before it have been judged (work list: first thing next)
+            work.insert(0, ("crash", (b0 + ci, crashed, rc, errtxt)))
+        if b0 == "crash":
+            k0, crashed, rc, errtxt = batch
+            small = crashed
             try:
-                small = ddmin(batch[ci], lambda c: run_cases(impl, [c], timeout=60)[1] is not None, max_iter=60)
+                small = ddmin(crashed, lambda c: run_cases(impl, [c], timeout=60)[1] is not None, max_iter=60)
             except Exception:
                 pass
-            p = rep.replay_file("crash_%d.case" % (b0 + ci), "# implementation crashed or hung (rc=%s)\n# %s\n" % (rc, errtxt.replace("\n", "\n# ")) + "\n".join(small) + "\n")
+            p = rep.replay_file("crash_%d.case" % k0, "# implementation crashed or hung (rc=%s)\n# %s\n" % (rc, errtxt.replace("\n", "\n# ")) + "\n".join(small) + "\n")
             rep.violation(p, "implementation crashed / hung / sanitizer report (rc=%s): %s" % (rc, san_summary(errtxt)))
             continue
+        if not batch:
+            continue
+        mout, mcrash = run_cases(model, batch, timeout=600)
         for ci, case in enumerate(batch):
             rep.cov["evaluations"] += len(case)
             for l in case:
